@@ -1,6 +1,6 @@
 (* Dispatch.v — the single entry point the extracted driver calls:
    component number and flat input -> flat output. *)
-From RaftModel Require Import Base LogCache Config Commitment Compaction Node NodeCodec Candidate Lease Leader LeaderCodec Pipeline LoopTable Futures.
+From RaftModel Require Import Base LogCache Config Commitment Compaction Node NodeCodec Candidate Lease Leader LeaderCodec Pipeline LoopTable Futures Notify.
 Open Scope N_scope.
 
 (* the table generated from the Go source on this run *)
@@ -19,6 +19,8 @@ Definition run_case (comp : N) (inp : list N) : list N :=
   | 8 => run_leaderseq inp
   | 16 => run_pipeline inp
   | 17 => run_futures the_table inp
+  | 18 => run_notify_ops runleader_entry runleader_exit n_init inp
+  | 1801 => run_override None inp
   | 13 => run_lease inp
   | 1301 => run_validate_timing inp
   | 1302 => [min_check_interval]
